@@ -24,8 +24,14 @@ RT_TEXT = ("Lean 4 theorems about the executable mechanism model P of the runtim
            "no-failing-input-found. %s")
 
 SLOTG = (" Object graphs among slot *variables* (connection(slot_base&), slots with a parent through std::ref, self-owning "
-         "cycles) are covered by the SlotG component: model lean/Sigc/SlotG.lean, 30 theorems in Props/SlotG.lean (audited "
+         "cycles, slots held by value in functors, functor-owned connections) are covered by the SlotG component: model lean/Sigc/SlotG.lean, 34 theorems in Props/SlotG.lean (audited "
          "here), own harness and generator (checks/slotg.py, docs/SLOTG.md), merged into this check's correspondence.")
+
+SWEEPL = (" Owner functors whose destructors disconnect other slots of the same list at the moment the library destroys them "
+          "(inside an erase, a sweep, a clear), together with connected empty slots — the combination the program mode `owners` "
+          "keeps apart — are covered for one slot list by the SweepL component: model lean/Sigc/SweepL.lean with exact "
+          "exec_count_/deferred_/holder scopes, 23 theorems in Props/SweepL.lean (audited here), own harness and generator "
+          "(checks/sweepl.py, docs/SWEEPL.md), merged into this check's correspondence.")
 
 CHECKS = {
     "C01": ("§5 C01", "Theorems: connect appends / connect_first prepends; one step of the emitter invokes exactly a valid, "
@@ -40,7 +46,7 @@ CHECKS = {
     "C03": ("§5 C03", "Theorems: safe / safe_inside (no reachable state of any program, inside or outside emissions at any "
             "depth, has an iterator invalidated, an end marker missing, a list destroyed during its emission or a forwarder to "
             "a dead signal: invariant Inv + frame relation, mutual induction on fuel), frame, emit_restores_exec, "
-            "quiescent_clean, owned_not_pinned, the deferral rule. Known finding F6 is replayed.",
+            "quiescent_clean, owned_not_pinned, the deferral rule. Known finding F6 is replayed." + SWEEPL,
             "Lean proof + differential correspondence under ASan (re-entrant bodies, owning functors)"),
     "C04": ("§5 C04", "Theorems: connected() iff the cell is still in a list and valid; erasing a cell nulls every connection "
             "and scoped connection to it and no other; connection-variable operations touch nothing else; all-history: a "
@@ -52,7 +58,7 @@ CHECKS = {
     "C07": ("§5 C07", "Theorems: functor copies live only in representations of slot variables and list cells; invalidation "
             "releases the copy; sweep/erase remove exactly the cells they should; all-history accounting. The harness "
             "additionally counts live functor copies (live?), LeakSanitizer checks the end of every program, and "
-            "state-restoring cycles are compared at 2 vs 40 repetitions.",
+            "state-restoring cycles are compared at 2 vs 40 repetitions." + SLOTG + SWEEPL,
             "Lean proof + differential correspondence under LSan + allocation-growth cycles"),
     "C08": ("§5 C08", "Theorems: consistent / consistent_quiescent (after an exception escapes an emission at any depth the "
             "signal is as consistent as after a normal return), propagates, a body stops at the first escaping exception, the "
@@ -141,8 +147,9 @@ def main():
                                "+ differential correspondence of the models against the real library built from /repo's "
                                "working tree"}],
         "checks": checks,
-        "notes": "fix: commits in /repo: a8e014a (F1), 7d5ea9e (F2), e9fc7e7 (F3), 34d9d5c (F4), 266d9a0 (F5); known findings "
-                 "F6, K1, K2 in known_findings.json; see DESIGN.md",
+        "notes": "fix: commits in /repo: a8e014a (F1), 7d5ea9e (F2), e9fc7e7 (F3), 34d9d5c (F4), 266d9a0 (F5), a0cfce0 (F7), 1ac45b9 (F9), "
+                 "a8d1bb0 (F10), 6def444 (F11), 1467ef2 (F12), f795db9 (F13), 076d91d (F14); known findings F6, F8, K1, K2 in "
+                 "known_findings.json; see DESIGN.md §2",
         "not_applicable": na,
     }
     json.dump(m, open(os.path.join(VERIF, "MANIFEST.json"), "w"), indent=1)
